@@ -83,8 +83,25 @@ def gen_variant(r, k, tier):
     return p, variant, tend
 
 
+def parse_prog(text):
+    p = dict(lps=1, ncls=1, target=0, seed=0, grid=0, inits=[], rows=[], targets=[])
+    for l in text.split("\n"):
+        t = l.split()
+        if not t or t[0] == "#":
+            continue
+        if t[0] in ("lps", "ncls", "target", "grid"):
+            p[t[0]] = int(t[1], 0)
+        elif t[0] == "seed":
+            p["seed"] = int(t[1], 0)
+        elif t[0] == "ptarget":
+            p["targets"].append((int(t[1]), int(t[2])))
+        elif t[0] == "stopat":
+            p["stopat"] = (int(t[1]), int(t[2]))
+    return p
+
+
 def campaign(c, ctx, r, nprogs, mask, tier, want_stats=False, variants=("pred", "tend", "stop"), ranks_list=(1,),
-             extra_cfgs=None, jobs=4, watchdog=25):
+             extra_cfgs=None, jobs=4, watchdog=25, delays=(None,)):
     """runs nprogs generated programs under several configurations; returns a list of run records"""
     runs, progs = [], []
     k = 0
@@ -99,24 +116,39 @@ def campaign(c, ctx, r, nprogs, mask, tier, want_stats=False, variants=("pred", 
         seqstop = S.run_seq(ctx["mexe"], pf, log=False, evalinit=True, stop=True)
         seqfull = S.run_seq(ctx["mexe"], pf, log=True, evalinit=True, stop=False)
         progs.append(dict(p=p, text=text, path=pf, variant=variant, tend=tend, seqstop=seqstop, seqfull=seqfull, idx=len(progs)))
-    jobs_list = []
+    # corpus programs of this property first (minimised past failures and targeted scenarios), each with its own configurations
+    import glob
+    corpus_jobs = []
+    for f in sorted(glob.glob(os.path.join(V.VERIF, "corpus", c.pid + "_*.txt"))):
+        text = open(f).read()
+        pcfg = [l for l in text.split("\n") if l.startswith("# run ")]
+        pr = dict(p=parse_prog(text), text=text, path=f, variant="pred", tend=0, idx=len(progs),
+                  seqstop=S.run_seq(ctx["mexe"], f, log=False, evalinit=True, stop=True),
+                  seqfull=S.run_seq(ctx["mexe"], f, log=True, evalinit=True, stop=False))
+        progs.append(pr)
+        for ci, l in enumerate(pcfg):
+            t = l.split()
+            corpus_jobs.append((pr, int(t[2]), int(t[3]), int(t[4]), 1, 100 + ci, None if t[5] == "-" else t[5]))
+    jobs_list = list(corpus_jobs)
     for pr in progs:
+        if pr["path"].startswith(os.path.join(V.VERIF, "corpus")):
+            continue
         cfgs = configs(r, tier, pr["p"]["lps"]) + list(extra_cfgs or [])
         for ci, (th, ck, gp) in enumerate(cfgs):
             for ranks in ranks_list:
-                jobs_list.append((pr, th, ck, gp, ranks, ci))
+                jobs_list.append((pr, th, ck, gp, ranks, ci, delays[(pr["idx"] + ci) % len(delays)]))
 
     def one(job):
-        pr, th, ck, gp, ranks, ci = job
+        pr, th, ck, gp, ranks, ci, delay = job
         tag = "%d_%d_%d" % (pr["idx"], ci, ranks)
         tf = os.path.join(ctx["sd"], "trace_%s.txt" % tag) if mask else None
         sf = os.path.join(ctx["sd"], "stats_%s" % tag) if want_stats else "-"
         res = S.run_sim(ctx["exe"], pr["path"], threads=th, ckpt=ck, gvt=gp, tend=pr["tend"], stats=sf, trace_file=tf,
-                        trace_mask=mask, watchdog=watchdog, timeout=watchdog + 30, ranks=ranks)
+                        trace_mask=mask, watchdog=watchdog, timeout=watchdog + 30, ranks=ranks, delay=delay)
         tr = S.read_trace(tf) if tf else []
         if tf and os.path.exists(tf):
             os.remove(tf)
-        return dict(prog=pr, cfg=(th, ck, gp, ranks), res=res, trace=tr, stats=(sf + ".bin") if want_stats else None)
+        return dict(prog=pr, cfg=(th, ck, gp, ranks), res=res, trace=tr, stats=(sf + ".bin") if want_stats else None, delay=delay)
 
     with ThreadPoolExecutor(jobs) as ex:
         runs = list(ex.map(one, jobs_list))
@@ -125,7 +157,7 @@ def campaign(c, ctx, r, nprogs, mask, tier, want_stats=False, variants=("pred", 
 
 def describe(run):
     th, ck, gp, ranks = run["cfg"]
-    return dict(threads=th, checkpoint_interval=ck, gvt_period_us=gp, ranks=ranks, variant=run["prog"]["variant"],
+    return dict(threads=th, checkpoint_interval=ck, gvt_period_us=gp, ranks=ranks, variant=run["prog"]["variant"], injected_delay=run.get("delay"),
                 tend=run["prog"]["tend"], cmd=run["res"].cmd)
 
 
